@@ -270,10 +270,11 @@ def wide_weight_inputs(rng, n):
     for _ in range(n):
         nc = rng.randint(3, 5)
         cands = D.ABC[:nc]
-        style = rng.choice(["big", "big", "close"])
+        style = rng.choice(["big", "big", "close", "prime"])
         ballots = []
         for c in rng.sample(cands, rng.randint(2, nc)):
-            w = F(2**53 + rng.choice([0, 0, 1, 1, 2, 3])) * rng.choice([1, 1, 4]) if style == "big" else F(2 * 10**17 + rng.choice([0, 0, 1, 2]), 10**17)
+            w = F(2**53 + rng.choice([0, 0, 1, 1, 2, 3])) * rng.choice([1, 1, 4]) if style == "big" else \
+                F(2 * 10**17 + rng.choice([0, 0, 1, 2]), 10**17) if style == "close" else F(rng.randint(1, 50), rng.choice([10007, 999983, 1000003]))
             tail = rng.sample([x for x in cands if x != c], rng.randint(0, nc - 1))
             ballots.append({"r": [[x] for x in [c] + tail], "w": rat(w)})
         order = list(cands)
